@@ -54,7 +54,9 @@ def defs_for(texts):
             continue
         need.add(n)
         stack += pat.findall(byname[n][2])
-    return "".join("let %s : %s := %s in\n" % (n, byname[n][1], byname[n][2]) for n in sorted(need, key=lambda n: byname[n][0]))
+    # top-level definitions (a chain of let-ins makes elaboration quadratic: every implicit argument under it
+    # is an evar created in a context holding all the lets)
+    return "".join("Definition %s : %s := %s.\n" % (n, byname[n][1], byname[n][2]) for n in sorted(need, key=lambda n: byname[n][0]))
 
 
 def eval_cases(ctx, prefix, header, terms, shards=4, timeout=900):
@@ -65,7 +67,7 @@ def eval_cases(ctx, prefix, header, terms, shards=4, timeout=900):
         shards = 12
     ns = max(1, min(shards, len(terms)))
     groups = [terms[si::ns] for si in range(ns)]
-    texts = [header + "\nDefinition cases : list case :=\n" + defs_for(g) + "[\n" + ";\n".join(g) + "\n].\n" + common.CASES_TAIL for g in groups]
+    texts = [header + defs_for(g) + "\nDefinition cases : list case := [\n" + ";\n".join(g) + "\n].\n" + common.CASES_TAIL for g in groups]
     res = common.coq_eval_shards(ctx, prefix, texts, timeout)
     mism = []
     for si, (rc, out, err) in enumerate(res):
@@ -272,7 +274,9 @@ def run_check(ctx, spec):
         hist[k] = hist.get(k, 0) + 1
         for f in spec.features(c, o):
             feats[f] = feats.get(f, 0) + 1
-        if spec.nontrivial(c, o):
+        if hasattr(spec, "nontrivial_keys"):
+            nontriv |= spec.nontrivial_keys(c, o)
+        elif spec.nontrivial(c, o):
             nontriv.add(json.dumps(c, sort_keys=True))
         if o.get("ok") is False:
             violations.append({"what": "%s: %s" % (c.get("k"), o.get("why")), "replay": {"case": c, "impl": o},
@@ -308,7 +312,8 @@ def run_check(ctx, spec):
             o["rs"] = o["rs"][:6]
         return o
     samples = [{"case": c, "impl": slim(o)} for c, o in list(zip(cases, outs))[:2]]
-    cov = {"evaluations": len(cases), "distinct_nontrivial": len(nontriv), "rule": spec.RULE,
+    evals = spec.count_evaluations(cases, outs) if hasattr(spec, "count_evaluations") else len(cases)
+    cov = {"evaluations": evals, "cases": len(cases), "distinct_nontrivial": len(nontriv), "rule": spec.RULE,
            "samples": samples, "traces_validated_against_impl": compared, "model_impl_disagreements": len(mism),
            "input_classes": hist, "features": feats, "boundary_events": sum(len(o.get("log") or []) for o in outs),
            "race_detector": race}
